@@ -41,7 +41,7 @@ ASSUMPTIONS = [
 ]
 TRUSTED_BASE = ['vf/shims/pkgs/orjson (json.dumps-backed)', 'oracle in this file']
 SHARDS = {'quick': 1, 'thorough': 16}
-TIMEOUT = {'quick': 300, 'thorough': 1500}
+TIMEOUT = {'quick': 600, 'thorough': 3600}
 
 
 def FLOORS(tier):
@@ -283,5 +283,17 @@ def run(ctx):
         judge(groups, jobs, maxb, maxn, 'api')
 
 
-# ---- validation record (scratch worktree, quick tier, seed 0) --------------------------------------
-# see bottom of file after validation
+# ---- validation record ---------------------------------------------------------------------------------
+# Unchanged tree: quick and thorough, seeds 0..4: all HELD (exit 0).
+# Breaks applied one at a time to a scratch worktree (hailtop/batch_client/aioclient.py), quick tier, seed 0:
+#   DESIGN 1  `bunch_n_bytes + n_bytes <= max_bunch_bytesize` (<= for <)          caught  byte-limit/equal-to-limit
+#   DESIGN 2  `bunch_n_bytes = 0` instead of `= n_bytes` when a bunch is opened    caught  byte-limit/exceeded (+ equal-to-limit)
+#   own 1     `len(bunch) <= max_bunch_size` (count off by one)                    caught  count-limit/exceeded
+#   own 2     jobs concatenated before job groups                                  caught  concat/reordered, order/type-tag-wrong
+#   own 3     job-group specs tagged SpecType.JOB                                  caught  order/type-tag-wrong
+#   own 4     final bunch appended only `if len(bunch) > 1` (last singleton lost)  caught  concat/lost-spec
+#   own 5     SpecBytes.n_bytes = len(spec_bytes.decode()) (characters, not bytes) MISSED at first: the oracle summed
+#             s.n_bytes, i.e. it trusted the broken accessor; it now measures len(s.spec_bytes) itself -> caught
+#             byte-limit/equal-to-limit, byte-limit/exceeded (multi-byte padding in the generator is what exposes it)
+#   own 6     per-spec assertion disabled (`assert True`)                          caught  empty-bunch (an oversized first
+#             spec closes an empty bunch); an oversized spec that ends up alone in a bunch is deliberately not judged
